@@ -249,6 +249,22 @@ def observe(d, det, rec):
         raise RealCodeError("observe", e)
 
 
+def collective_consistent(d, o, rec):
+    """recorder.collective (a DataFrame view of the same recording) must show what the arrays show."""
+    try:
+        c = d.recorder.collective
+        got = {"from": [float(x) for x in c["from"].to_numpy()], "to": [float(x) for x in c["to"].to_numpy()]}
+        if rec == "full":
+            got["ifrom"] = [float(x) for x in c["index_from"].to_numpy()]
+            got["ito"] = [float(x) for x in c["index_to"].to_numpy()]
+    except Exception as e:     # noqa
+        raise RealCodeError("collective", e)
+    for k, v in got.items():
+        if k in o and o[k] != v:
+            return k, v
+    return None
+
+
 def one_piece(det, rec, prefix, flush=False, dtype=None):
     d = _mk(det, rec)
     arr = np.array(prefix, dtype=np.float64)
@@ -396,6 +412,20 @@ def _execute(prop, trace):
             st["dead"] = True
             continue
         log.add(r, b, o)
+        if last or st["k"] == 1:
+            # the user may look at the collective at any time (also early): it must agree with the arrays
+            try:
+                bad = collective_consistent(st["d"], o, rec) if det != "fkm" or rec == "value" else None
+            except RealCodeError as e:
+                out.violate("exception", "%s/%s" % (det, e.where), {"replica": r, "consumed": b, "type": e.exc_type, "msg": e.msg})
+                st["dead"] = True
+                continue
+            if bad:
+                out.violate("I1-prefix-refinement" if prop == "C01" else "I4-exactly-once", det + ":collective",
+                            {"replica": r, "consumed": b, "field": bad[0], "collective": bad[1], "arrays": o.get(bad[0])})
+                st["dead"] = True
+                continue
+            out.count("probe:collective_read")
         if b < n:
             out.count("border:" + border_kind(b, sig, runs, kinds, rev, run_of))
         nb = len(st["bounds"]) - 1
